@@ -85,6 +85,8 @@ pub struct MonState {
     pub ledger: Ledger,
     /// Rewards{} answer taken right before a claim: denom -> amount, or None when the query failed
     pub rewards_quote: Option<BTreeMap<String, u128>>,
+    /// a bank fault is armed for the transaction being monitored (liveness-style monitors are skipped)
+    pub fault_active: bool,
     /// static signature of every pool at the first snapshot that showed it
     pub statics: BTreeMap<String, String>,
     /// denoms for which the pool manager received an explicit donation (send, receiver=pm)
@@ -264,7 +266,7 @@ pub fn tx_monitors(h: &Hist, ms: &mut MonState, b: &Obs, line: &str, res: &str, 
                             s += &format!(" {} {} {}", r, refund, got);
                         }
                         out.push(s);
-                    } else if pb.status.withdrawals_enabled {
+                    } else if pb.status.withdrawals_enabled && !ms.fault_active {
                         let mut s = format!("mon_withdraw_rejected {} {} {}", burned, sb, pb.assets.len());
                         for c in pb.assets.iter() { s += &format!(" {}", c.amount); }
                         out.push(s);
@@ -384,7 +386,7 @@ pub fn tx_monitors(h: &Hist, ms: &mut MonState, b: &Obs, line: &str, res: &str, 
                     }
                     out.push(s);
                     ms.ledger.cursor.insert(tx.sender.clone(), until);
-                } else if valid {
+                } else if valid && !ms.fault_active {
                     out.push(format!("mon_claim_rejected {} {}", until, cursor.map(|x| x.to_string()).unwrap_or("-".into())));
                 }
             }
